@@ -1,10 +1,141 @@
-(* C03 - placeholder statements; extended below as proofs land *)
-From Coq Require Import ZArith QArith List.
-From NutsV Require Import model.Tree.
+(* C03 - Every draw is a real trajectory state and its statistics describe it.
+   Statements only; proofs in proofs/Tree_facts.v.  `outcome m ticks r` = r is a possible result of
+   the choice tree m, reached after leapfrogging onto the indices `ticks` (in that order); by
+   C03_run_is_outcome every scripted run of the model (the one compared with the code) is one. *)
+From Coq Require Import ZArith QArith List Bool.
+From NutsV Require Import model.Tree proofs.Tree_facts.
 Import ListNotations.
-Example C03_model_runs :
-  run_draw_gen false [ {| os_idx := 0; os_w := 1; os_q := [1#1]; os_v := [1#1]; os_bad := false; os_fatal := false |} ]
-    {| n_maxdepth := 0; n_mindepth := 0; n_extra := 0; n_check := true; n_dim0 := false |} []
-  = [[0; 0; 0; 0; -999999; 1; -999999; 0]%Z; []; []].
+Local Open Scope Z_scope.
+
+Theorem C03_run_is_outcome :
+  forall (A : Type) (m : ptree A) (script : list Z) (r : runres A),
+    run m script [] [] = Some r -> outcome m (rr_ticks r) (rr_val r).
+Proof. exact run_outcome. Qed.
+Print Assumptions C03_run_is_outcome.
+
+(* the returned tree is a block of 2^depth consecutive indices containing the start and the draw *)
+Theorem C03_interval :
+  forall (wt : Z -> Q) (turn : Z -> Z -> bool) (bad fatal : Z -> bool) (o : nopts) (a : Z)
+         (ticks : list Z) (r : dres),
+    outcome (pdraw wt turn bad fatal o a) ticks r -> d_err r = None ->
+    d_lo r <= a <= d_hi r /\ d_lo r <= d_sel r <= d_hi r /\
+    d_hi r - d_lo r + 1 = 2 ^ Z.of_nat (d_depth r).
+Proof. exact T1_interval. Qed.
+Print Assumptions C03_interval.
+
+(* |index_in_trajectory| <= 2^depth - 1 *)
+Theorem C03_index_bound :
+  forall (wt : Z -> Q) (turn : Z -> Z -> bool) (bad fatal : Z -> bool) (o : nopts) (a : Z)
+         (ticks : list Z) (r : dres),
+    outcome (pdraw wt turn bad fatal o a) ticks r -> d_err r = None ->
+    Z.abs (d_sel r - a) <= 2 ^ Z.of_nat (d_depth r) - 1.
+Proof. exact T1_distance. Qed.
+Print Assumptions C03_index_bound.
+
+Theorem C03_depth_le_maxdepth :
+  forall (wt : Z -> Q) (turn : Z -> Z -> bool) (bad fatal : Z -> bool) (o : nopts) (a : Z)
+         (ticks : list Z) (r : dres),
+    n_extra o = 0%nat ->
+    outcome (pdraw wt turn bad fatal o a) ticks r -> d_err r = None ->
+    (d_depth r <= n_maxdepth o)%nat.
+Proof. exact T2_depth. Qed.
+Print Assumptions C03_depth_le_maxdepth.
+
+(* 2^depth - 1 <= steps <= 2^(depth+1) - 1 *)
+Theorem C03_step_count :
+  forall (wt : Z -> Q) (turn : Z -> Z -> bool) (bad fatal : Z -> bool) (o : nopts) (a : Z)
+         (ticks : list Z) (r : dres),
+    n_extra o = 0%nat -> n_dim0 o = false ->
+    outcome (pdraw wt turn bad fatal o a) ticks r -> d_err r = None ->
+    2 ^ Z.of_nat (d_depth r) - 1 <= Z.of_nat (length ticks) <= 2 ^ (Z.of_nat (d_depth r) + 1) - 1.
+Proof. exact T4_steps. Qed.
+Print Assumptions C03_step_count.
+
+(* a model with parameters integrates at least one step whenever maxdepth >= 1 *)
+Theorem C03_at_least_one_step :
+  forall (wt : Z -> Q) (turn : Z -> Z -> bool) (bad fatal : Z -> bool) (o : nopts) (a : Z)
+         (ticks : list Z) (r : dres),
+    (1 <= n_maxdepth o)%nat -> n_dim0 o = false ->
+    outcome (pdraw wt turn bad fatal o a) ticks r -> (1 <= length ticks)%nat.
+Proof. exact T4_at_least_one. Qed.
+Print Assumptions C03_at_least_one_step.
+
+(* the draw is the start or a state the integrator reached; every other state of the returned
+   tree was reached too and none of them diverged or failed: nothing of a rejected sub-tree and
+   no invalid state is inside the tree the draw is selected from *)
+Theorem C03_draw_was_visited :
+  forall (wt : Z -> Q) (turn : Z -> Z -> bool) (bad fatal : Z -> bool) (o : nopts) (a : Z)
+         (ticks : list Z) (r : dres),
+    outcome (pdraw wt turn bad fatal o a) ticks r -> d_err r = None ->
+    (d_sel r = a \/ In (d_sel r) ticks) /\
+    (forall i, d_lo r <= i <= d_hi r -> i <> a -> In i ticks /\ bad i = false /\ fatal i = false).
+Proof. exact T5_visited. Qed.
+Print Assumptions C03_draw_was_visited.
+
+(* the maxdepth flag implies: depth = maxdepth, no divergence, and exactly 2^maxdepth - 1 steps
+   (no rejected sub-tree): maxdepth was the only reason to stop *)
+Theorem C03_maxdepth_flag :
+  forall (wt : Z -> Q) (turn : Z -> Z -> bool) (bad fatal : Z -> bool) (o : nopts) (a : Z)
+         (ticks : list Z) (r : dres),
+    outcome (pdraw wt turn bad fatal o a) ticks r -> d_err r = None -> d_maxdepth r = true ->
+    d_depth r = n_maxdepth o /\ d_div r = None /\ n_dim0 o = false /\
+    Z.of_nat (length ticks) = 2 ^ Z.of_nat (n_maxdepth o) - 1.
+Proof. exact T3_maxdepth_flag. Qed.
+Print Assumptions C03_maxdepth_flag.
+
+(* without the flag there was another reason: a divergence, or a U-turn between two states within
+   one tree width of the returned tree (checked only at or beyond mindepth) *)
+Theorem C03_no_flag_has_reason :
+  forall (wt : Z -> Q) (turn : Z -> Z -> bool) (bad fatal : Z -> bool) (o : nopts) (a : Z)
+         (ticks : list Z) (r : dres),
+    outcome (pdraw wt turn bad fatal o a) ticks r -> d_err r = None -> n_dim0 o = false ->
+    d_maxdepth r = false ->
+    d_div r <> None \/
+    (n_check o = true /\ (n_mindepth o <= d_depth r)%nat /\
+     exists u v, turn u v = true /\ u < v /\
+       d_lo r - 2 ^ Z.of_nat (d_depth r) <= u /\ v <= d_hi r + 2 ^ Z.of_nat (d_depth r)).
+Proof. exact T3_flag_false. Qed.
+Print Assumptions C03_no_flag_has_reason.
+
+(* never earlier: with no U-turn anywhere and no divergence the doubling runs to maxdepth *)
+Theorem C03_never_stops_early :
+  forall (wt : Z -> Q) (turn : Z -> Z -> bool) (bad fatal : Z -> bool) (o : nopts) (a : Z)
+         (ticks : list Z) (r : dres),
+    outcome (pdraw wt turn bad fatal o a) ticks r -> d_err r = None -> n_dim0 o = false ->
+    (n_check o = false \/ forall u v, turn u v = false) -> d_div r = None ->
+    d_maxdepth r = true /\ d_depth r = n_maxdepth o.
+Proof. exact T3_nocheck. Qed.
+Print Assumptions C03_never_stops_early.
+
+(* a reported divergence is a state that really diverged, adjacent to (outside) the returned tree *)
+Theorem C03_divergence_outside_tree :
+  forall (wt : Z -> Q) (turn : Z -> Z -> bool) (bad fatal : Z -> bool) (o : nopts) (a : Z)
+         (ticks : list Z) (r : dres) (i : Z),
+    outcome (pdraw wt turn bad fatal o a) ticks r -> d_err r = None -> d_div r = Some i ->
+    bad i = true /\ fatal i = false /\ In i ticks /\ n_dim0 o = false /\
+    (d_hi r < i <= d_hi r + 2 ^ Z.of_nat (d_depth r) \/
+     d_lo r - 2 ^ Z.of_nat (d_depth r) <= i < d_lo r).
+Proof. exact T6_divergence. Qed.
+Print Assumptions C03_divergence_outside_tree.
+
+Theorem C03_dim0 :
+  forall (wt : Z -> Q) (turn : Z -> Z -> bool) (bad fatal : Z -> bool) (o : nopts) (a : Z)
+         (ticks : list Z) (r : dres),
+    n_dim0 o = true -> outcome (pdraw wt turn bad fatal o a) ticks r ->
+    ticks = [] /\ d_sel r = a /\ d_depth r = 0%nat /\ d_err r = None /\ d_div r = None /\
+    d_maxdepth r = false /\ d_lo r = a /\ d_hi r = a.
+Proof. exact T7_dim0. Qed.
+Print Assumptions C03_dim0.
+
+(* non-vacuity: a concrete scripted run that doubles twice and stops at maxdepth *)
+Example C03_nonvacuous :
+  run_draw_gen false
+    [ {| os_idx := 0; os_w := 1; os_q := [0#1]; os_v := [1#1]; os_bad := false; os_fatal := false |};
+      {| os_idx := 1; os_w := 1#2; os_q := [1#1]; os_v := [1#1]; os_bad := false; os_fatal := false |};
+      {| os_idx := -1; os_w := 1#2; os_q := [-1#1]; os_v := [1#1]; os_bad := false; os_fatal := false |};
+      {| os_idx := -2; os_w := 1#4; os_q := [-2#1]; os_v := [1#1]; os_bad := false; os_fatal := false |} ]
+    {| n_maxdepth := 2; n_mindepth := 0; n_extra := 0; n_check := true; n_dim0 := false |}
+    [9223372036854775808; 0; 0; 0; 0; 0]
+  = [[-2; 2; -2; 1; -999999; 1; -999999; 5]; [1; -1; -2]; [500000000000; 333333333333; 500000000000]].
 Proof. vm_compute. reflexivity. Qed.
-Print Assumptions C03_model_runs.
+Print Assumptions C03_nonvacuous.
